@@ -1,7 +1,7 @@
 package main
 
 func init() {
-	for _, id := range []string{"C04", "C06", "C07", "C10", "C11", "C14", "C15", "C16", "C19", "C20"} {
+	for _, id := range []string{"C04", "C07", "C10", "C11", "C14", "C15", "C16", "C19", "C20"} {
 		notApplicable[id] = "not yet claimed: contracts for this property are still being written (see DESIGN.md); no check is registered"
 	}
 	notApplicable["C12"] = "command/response matching lives in goroutine, channel and timer interplay (onActiveEvent/onActiveRespondEvent/write); no sequential function contract within the verifier's subset carries the claim"
@@ -101,5 +101,22 @@ func init() {
 		Decided: "ownership clauses: the raw frame, body and BCD phone of every message returned by unpack are disjoint from the caller's read buffer and from the pending-bytes buffer " +
 			"(up to its capacity, i.e. everything a later append can overwrite); unescape/Decode return sub-slices of their input or fresh storage; reassembled data is fresh",
 		Undecided: []string{"the timing half of the statement (reader vs writer goroutine) is moot once disjointness holds and is not explored"},
+	})
+}
+
+func init() {
+	registerProp(&PropDef{
+		ID:    "C06",
+		Title: "Automatic replies: one per request, correctly correlated, ordered and numbered",
+		Roots: []string{
+			"model.(*P0x8001).Encode", "model.(*BaseHandle).ReplyBody", "model.(*BaseHandle).ReplyProtocol", "model.(*BaseHandle).HasReply",
+			"model.(*T0x0001).HasReply", "model.(*T0x0104).HasReply", "model.(*T0x0805).HasReply", "model.(*T0x1205).HasReply", "model.(*T0x1206).HasReply",
+			"model.(*T0x0002).ReplyProtocol", "model.(*T0x0100).ReplyProtocol", "model.(*T0x0801).ReplyProtocol", "model.(*T0x1210).ReplyProtocol", "model.(*T0x1212).ReplyProtocol",
+			"model.(*T0x0102).ReplyBody", "model.(*P0x8100).Encode", "model.(*T0x0100).ReplyBody", "model.(*T0x0801).ReplyBody",
+			"service.(*connection).curSeq",
+		},
+		Decided: "reply bodies (general response echoing serial and ID with result 0; authentication result 0 exactly when the code equals the phone number; registration response with serial, 0 and the phone as code; " +
+			"multimedia response echoing the multimedia ID), reply IDs and has-reply flags per type, and the serial counter (value used, then +1 modulo 2^16)",
+		Undecided: []string{"one reply per request, ordering and callbacks across reader/writer goroutines and channels", "defaultReplyEvent's dynamic dispatch through the Handler interface (the handler table is a map literal)"},
 	})
 }
